@@ -3,13 +3,14 @@
      - every file a fresh save produces (whole tree or any partial selection),
      - every file an append (C09's union) or an append-over (union + replace) of a whole tree leaves,
      - every file an append aimed inside a tree leaves: an inner node; the whole tree at an emdpath; an inner node with an
-       emdpath to itself or its parent; a foreign tree placed under an emdpath; append-over of an inner node and of the whole tree at an emdpath (closed
+       emdpath to itself or its parent; a foreign tree or inner node placed under an emdpath; append-over of an inner node and of the whole tree at an emdpath (closed
        forms of Proofs/PSubst.v),
-     - every file of several trees, and every list save (lists mixing roots, unrooted items and rooted nodes of several
+     - every file of several trees, the file after any history of whole-tree saves (new trees, appends, append-overs in any
+       order), and every list save (lists mixing roots, unrooted items and rooted nodes of several
        roots) into a fresh file or appended to a file of other trees;
    plus the individual layout facts (valid tags on every node group, tagged bundles of tagged typed items, the header
    passing the package detector, the bundle created by the append path tagged, no scratch group after a replace: C09/C18).
-   PARTIAL: foreign inner nodes under an emdpath, tree = False / None variants of append-over inside a tree, and list saves naming a root the file
+   PARTIAL: the tree = False variant of append-over inside a tree, and list saves naming a root the file
    already has are validated on real files by the harness after every successful save of every scenario, not by a theorem. *)
 From Emd Require Import Base.Prelude Model.H5 Model.Emd Generated.Tables Proofs.PTree Proofs.P05 Proofs.P20 Proofs.PRead Proofs.PUnion Proofs.PUnionAO Proofs.PWf Proofs.PMulti Proofs.PAfter Proofs.PMixed Proofs.PTarget Proofs.PSubst.
 From Emd Require Import Model.EmdList.
@@ -159,6 +160,20 @@ Theorem C05_the_file_after_a_foreign_tree_is_placed_under_an_emdpath_passes_the_
 Proof. exact wf_after_a_foreign_tree_under_an_emdpath. Qed.
 Print Assumptions C05_the_file_after_a_foreign_tree_is_placed_under_an_emdpath_passes_the_validator.
 
+(* a foreign inner node under an emdpath, for each tree flag: placed data tr = the node with its branch / the node alone /
+   the branch below it *)
+Theorem C05_the_file_after_a_foreign_node_is_placed_under_an_emdpath_passes_the_validator :
+  forall c0 m root tp data p kt md tr,
+    rcls m = CRoot -> rname root <> rname m -> ok_tree m -> rwalk m p = Some kt ->
+    tp <> [] -> rwalk root tp = Some data -> ok_tree data ->
+    (forall k, In k (placed data tr) -> ~ In (rname k) (keys (olinks (enc kt)))) ->
+    Forall (fun s => s <> "" /\ no_slash s = true) (rname m :: p) ->
+    plain_tree m ->
+    Forall (fun k => plain (rname k) = true /\ rname k <> "metadatabundle" /\ rcls k <> CRoot /\ plain_tree k) (placed data tr) ->
+    exists f, append_existing root tp (WA md tr (Some (join_slash (rname m :: p)))) md (whole_file c0 m) = Ok f /\ wf_emd c0 f = true.
+Proof. exact wf_after_a_foreign_node_under_an_emdpath. Qed.
+Print Assumptions C05_the_file_after_a_foreign_node_is_placed_under_an_emdpath_passes_the_validator.
+
 (* append-over of an inner node (replaced in its parent, file-only children kept), and of the whole tree at an emdpath *)
 Theorem C05_the_file_after_an_inner_node_appendover_passes_the_validator :
   forall c0 m root q x pk km data md,
@@ -171,6 +186,17 @@ Theorem C05_the_file_after_an_inner_node_appendover_passes_the_validator :
     exists f, append_existing root (q ++ [x]) (WA md (Some true) None) md (whole_file c0 m) = Ok f /\ wf_emd c0 f = true.
 Proof. exact wf_after_inner_node_appendover. Qed.
 Print Assumptions C05_the_file_after_an_inner_node_appendover_passes_the_validator.
+
+Theorem C05_the_file_after_an_appendover_of_the_branch_below_an_inner_node_passes_the_validator :
+  forall c0 m root p km data md,
+    In md appendovermode ->
+    rcls m = CRoot -> rname root = rname m -> rmds root = [] -> ok_tree m -> p <> [] ->
+    rwalk m p = Some km -> rwalk root p = Some data ->
+    compat_ao data (shallow_links km) (rkids km) ->
+    plain_tree m -> plain_tree data ->
+    exists f, append_existing root p (WA md None None) md (whole_file c0 m) = Ok f /\ wf_emd c0 f = true.
+Proof. exact wf_after_inner_node_appendover_branch. Qed.
+Print Assumptions C05_the_file_after_an_appendover_of_the_branch_below_an_inner_node_passes_the_validator.
 
 Theorem C05_the_file_after_an_appendover_at_an_emdpath_passes_the_validator :
   forall c0 m root q x pk km data md,
@@ -191,6 +217,17 @@ Theorem C05_a_file_of_several_trees_passes_the_validator :
   forall c ts, ts <> [] -> Forall (fun t => rcls t = CRoot /\ plain_tree t) ts -> wf_emd c (forest_file c ts) = true.
 Proof. exact wf_forest_file. Qed.
 Print Assumptions C05_a_file_of_several_trees_passes_the_validator.
+
+(* ... and so does the file after ANY history of whole-tree saves into it (new trees, appends, append-overs, any order; hgood
+   and happly as in C10) *)
+Theorem C05_the_file_after_any_history_of_whole_tree_saves_passes_the_validator :
+  forall c c0 steps ts,
+    ts <> [] -> Forall (fun t => rcls t = CRoot /\ plain_tree t) ts -> NoDup (map rname ts) -> hgood ts steps ->
+    Forall (fun st => rcls (hroot st) = CRoot /\ plain_tree (hroot st)) steps ->
+    exists f, fold_left (fun s st => snd (write_node c s (hroot st) [] (WA (hmode st) (htree st) None))) steps (H5 (forest_file c0 ts)) = H5 f /\
+              wf_emd c0 f = true.
+Proof. exact wf_after_any_history. Qed.
+Print Assumptions C05_the_file_after_any_history_of_whole_tree_saves_passes_the_validator.
 
 Theorem C05_a_list_save_passes_the_validator :
   forall c tops items md tr,
